@@ -6,6 +6,7 @@ import extract
 import endguard
 import p_multidim
 import p_search
+import p_own
 
 VERIF = os.path.dirname(os.path.dirname(os.path.abspath(__file__)))
 
@@ -179,4 +180,20 @@ PROPS['C10'] = {
     ],
     'not_decided': 'correctness of pred() over the high/low bit arrays (bit-level arithmetic on runtime values)',
     'explanation': 'Clause-level static claim for C10.',
+}
+
+
+PROPS['C19'] = {
+    'level': 'proof', 'rules': p_own.rules_c19,
+    'technique': 'static analysis: ownership/alias classification of record layouts and special member functions over the instantiated clang AST (OWN-ALIAS), plus field coverage of user-provided copy/move operations',
+    'decides': [
+        'OWN-ALIAS: for the six listed classes, transitively through fields, bases and container element types, every component is a value, an owning container of values, a deep-owned pointer (no copy operation copies it, every move that takes it nulls the source), a reference bound to the object itself by its default member initialiser, or an aliasing component that every provided copy/move operation re-targets to the own member after its last write',
+        'FIELD-COVER: every user-provided copy/move operation of a pgm:: record transfers every field of the source (so a copy answers like its source, given that queries are functions of the object state: C16)',
+    ],
+    'not_decided': '-',
+    'explanation': 'Full static claim for C19: a copy or move of a listed index class cannot refer to storage owned by the source, because no reachable component aliases it; '
+                   'combined with FIELD-COVER and C16 (queries read only the object\'s own state) the copy answers like the source. Deleted operations are not provided and outside the property.',
+    'trusted_base': DEFAULT_TRUSTED_BASE + ['the table of owning std containers in rules/p_own.py (std::vector, basic_string, pair, tuple, set, ...)',
+                                            'implicit/defaulted special members copy member-wise (C++ semantics)'],
+    'assumptions': ['user-supplied key/value types are themselves values', 'the driver exercises all four special operations of every listed class (checked on every run)'],
 }
